@@ -3,6 +3,7 @@ import CapyV.Driver.C17
 import CapyV.Driver.C03
 import CapyV.Driver.C27
 import CapyV.Driver.C22
+import CapyV.Driver.C23
 open CapyV.Driver
 
 def dispatch (line : String) : String :=
@@ -12,6 +13,7 @@ def dispatch (line : String) : String :=
   | "C03" :: args => c03 args
   | "C27" :: args => c27 args
   | "C22" :: args => c22 args
+  | "C23" :: args => c23 args
   | _ => "bad-op"
 
 partial def loop (h : IO.FS.Stream) (out : IO.FS.Stream) : IO Unit := do
